@@ -1850,10 +1850,9 @@ class t2data(object):
             if 'eos' in self.multi: del self.multi['eos']
             self.multi['num_inc'] = None
         # Convert LINEQ into corresponding MOP(21) option:
-        if self.lineq:
-            if self.lineq['type'] <= 1: solver_type = 4
-            else: solver_type = 5
-        else: solver_type = 4
+        lineq_type = self.lineq.get('type') if self.lineq else None
+        if lineq_type is None or lineq_type <= 1: solver_type = 4
+        else: solver_type = 5
         self.lineq = {}
         self.delete_section('LINEQ')
         # Convert MOPs:
